@@ -80,7 +80,7 @@ def classify(ctx, pid, cases, results, what):
         if c.get("note", "").startswith("panic"):
             why = c["note"][:400]
             if r is not None and r != [0]:
-                why += " || and before that: " + explain(r)
+                why = explain(r) + " || and then: " + why
             bad.append((c, r, why))
         elif r != [0]:
             bad.append((c, r, explain(r)))
